@@ -409,12 +409,65 @@ func valsSummary(vals map[string]*m.Val) string {
 	return s
 }
 
+// ---- two different Go struct types that print alike (the same local type name declared in two
+// functions): empty slices take conv's static type walk, filled ones the value walk; a Callable
+// compiled against one of the four values accepts exactly the values of the same Go type
+
+type SameNameCase struct {
+	X int `json:"x"` // compile-time sample: 0 empty A, 1 filled A, 2 empty B, 3 filled B
+	Y int `json:"y"` // run-time value
+}
+
+func checkSameName(c *SameNameCase) *Outcome {
+	ea, fa := sameNameA()
+	eb, fb := sameNameB()
+	vals := []interface{}{ea, fa, eb, fb}
+	names := []string{"an empty slice of the first row type", "a filled slice of the first row type", "an empty slice of the second row type", "a filled slice of the second row type"}
+	if c.X < 0 || c.X > 3 || c.Y < 0 || c.Y > 3 {
+		return skip("bad-index")
+	}
+	for _, closureBE := range []bool{false, true} {
+		e := yae.NewExpr()
+		if closureBE {
+			e.UseClosureCompiler()
+		}
+		cl, cerr := e.Compile("string(v)", map[string]interface{}{"v": vals[c.X]})
+		if cerr != nil {
+			return bad("string(v) does not compile against %s: %v", names[c.X], cerr)
+		}
+		var err error
+		if p := run.Guard(func() { _, err = cl(map[string]interface{}{"v": vals[c.Y]}) }); p != nil {
+			return bad("compiled against %s, invoked with %s: the Callable panicked: %s", names[c.X], names[c.Y], p.Text)
+		}
+		same := c.X/2 == c.Y/2
+		if same && err != nil {
+			return bad("compiled against %s, the Callable refuses %s (a value of the same Go type, hence of an equal type): %v", names[c.X], names[c.Y], err)
+		}
+		if !same && err == nil {
+			return bad("compiled against %s, the Callable accepts %s (a list of objects with other fields)", names[c.X], names[c.Y])
+		}
+	}
+	return ok(c.X != c.Y, "go-struct-types-of-one-printed-name")
+}
+
+var c07samename = Register(&Prop[SameNameCase]{ID: "C07", Name: "same-named-go-types", Check: checkSameName})
+
 var c07 = Register(&Prop[EnvCase]{ID: "C07", Name: "env-check", Gen: genEnvCase, Check: checkC07})
 
 func TestC07(t *testing.T) {
-	R.Rule = "pairs (compile-time environment E0, run-time environment E1): E0 in one of six physical forms (raw types.Env also with identical composite sub-terms shared as one type object) (the run-time environment also as a map whose lists of objects are []interface{} rows of Go struct types declaring the fields in different orders) (raw types.Env, Go struct built by reflection with yae tags, map[string]interface{}, Go struct of interface{} fields, Go struct of untagged pointer fields — the last two give one Go type to environments of different yae types), E1 derived from a conforming environment by 0-3 mutations (drop a name, retype a binding at a drawn depth, add extra names, permute object field order at every depth, make a binding optional, other values of the same types, or an unused binding arriving as a Go map whose entries hold lists of different element types) and given in a drawn physical form; the Callable is invoked with E1 three times (first, the same object again, a fresh object of the same contents), half of the time after an accepted call with the compile-time sample, and every invocation is judged alike; programs over E0's names with effect-recording wrappers; oracle: model predicate conforms(E0,E1); conforming => accepted and result = reference evaluator on E1; non-conforming => error returned, no panic, empty effect log; non-trivial = at least one mutation or a change of physical form"
+	R.Rule = "pairs (compile-time environment E0, run-time environment E1): E0 in one of six physical forms (raw types.Env also with identical composite sub-terms shared as one type object) (the run-time environment also as a map whose lists of objects are []interface{} rows of Go struct types declaring the fields in different orders) (raw types.Env, Go struct built by reflection with yae tags, map[string]interface{}, Go struct of interface{} fields, Go struct of untagged pointer fields — the last two give one Go type to environments of different yae types), E1 derived from a conforming environment by 0-3 mutations (drop a name, retype a binding at a drawn depth, add extra names, permute object field order at every depth, make a binding optional, other values of the same types, or an unused binding arriving as a Go map whose entries hold lists of different element types) and given in a drawn physical form; the Callable is invoked with E1 three times (first, the same object again, a fresh object of the same contents), half of the time after an accepted call with the compile-time sample, and every invocation is judged alike; programs over E0's names with effect-recording wrappers; plus the sixteen (compile-time sample, run-time value) pairs over empty / filled slices of two different Go struct types that print alike; oracle: model predicate conforms(E0,E1); conforming => accepted and result = reference evaluator on E1; non-conforming => error returned, no panic, empty effect log; non-trivial = at least one mutation or a change of physical form"
 	R.Assume = []string{"model.Equal is structural type equality (fields by name)", "host forms built by run/host.go denote the model values (this is C15's subject)"}
 	reportKnown(t, "C07")
 	runRegress(t, "C07")
+	c07samename.Each(t, "same-named-go-types", func(yield func(*SameNameCase) bool) {
+		// empty values first: the static walk of either type happens before any value walk
+		for _, x := range []int{2, 0, 1, 3} {
+			for _, y := range []int{0, 2, 3, 1} {
+				if !yield(&SameNameCase{X: x, Y: y}) {
+					return
+				}
+			}
+		}
+	})
 	c07.Run(t, budget(6000, 320000))
 }
